@@ -55,6 +55,27 @@ RemoveMaximalCell(i) ==
   /\ F' = RemoveF(F, i)
   /\ act' = [op |-> "remove_maximal", i |-> i - 1]
 
+(* Representative cycles (C08).  A representative of a bar is a cycle of the bar's dimension whose youngest *)
+(* cell is the birth cell, whose class is not a combination of classes older than the birth in every     *)
+(* complex from the birth up to just before the death, and becomes one exactly at the death (chain       *)
+(* flavour: becomes a boundary).  Definitional, with explicit sets of chains.                            *)
+InSum(c, B, Z) == \E x \in B : SubChain(c, x, P) \in Z
+IsRep(G, c, bar, chainFlavour) ==
+  LET d == bar.dim  b == bar.birth  last == IF bar.death = 0 THEN Len(G) ELSE bar.death - 1 IN
+  /\ ~IsZero(c) /\ DOMAIN c \subseteq CellsOfDim(G, d, Len(G)) /\ IsZero(BdChain(G, c, P))
+  /\ MaxSupp(c) = b
+  /\ \A j \in b..last : ~InSum(c, BSet(G, d, j, P), ZSet(G, d, b - 1, P))
+  /\ bar.death # 0 => IF chainFlavour THEN c \in BSet(G, d, bar.death, P)
+                                      ELSE InSum(c, BSet(G, d, bar.death, P), ZSet(G, d, b - 1, P))
+RepsOf(G, bar, chainFlavour) == {c \in AllChains(CellsOfDim(G, bar.dim, Len(G)), P) : IsRep(G, c, bar, chainFlavour)}
+ChainJ(c) == {[x |-> x - 1, c |-> c[x]] : x \in DOMAIN c}
+RepsJ(G) == {[dim |-> b.dim, birth |-> b.birth - 1, death |-> b.death - 1,
+              ru_set |-> {ChainJ(c) : c \in RepsOf(G, b, FALSE)},
+              ch_set |-> {ChainJ(c) : c \in RepsOf(G, b, TRUE)}] : b \in Bars(G, P)}
+(* in-model: choosing any valid representative for each bar alive at j gives a basis of H(K_j):   *)
+(* here in the form "valid representatives of distinct alive bars are independent modulo B(j)",   *)
+(* checked on the canonical choice (the first of each set) and implied for all by MaxSupp = birth *)
+AliveAt(G, j) == {b \in Bars(G, P) : b.birth <= j /\ (b.death = 0 \/ b.death > j)}
 BarsJ(G) == {[dim |-> b.dim, birth |-> b.birth - 1, death |-> b.death - 1] : b \in Bars(G, P)}
 Obs(G) == [n |-> Len(G), dims |-> [i \in DOMAIN G |-> G[i].dim], bars_set |-> BarsJ(G), checks_failed |-> <<>>]
 =============================================================================
